@@ -8,6 +8,8 @@ import NdonnxVerif.Driver.Broadcast
 import NdonnxVerif.Driver.Index
 import NdonnxVerif.Driver.IntArith
 import NdonnxVerif.Driver.Graph
+import NdonnxVerif.Driver.Setitem
+import NdonnxVerif.Driver.ReduceVal
 /-! Line-protocol driver: one request per line on stdin, one answer per line on stdout. -/
 open Ndx.Drv
 
@@ -19,6 +21,9 @@ def dispatch (line : String) : String :=
     | "bshape" => cmdBshape args
     | "intop" => cmdIntOp args
     | "gterm" => cmdGterm args
+    | "setitem" => cmdSetitem args
+    | "reduce_val" => cmdReduceVal args
+    | "gcast" => cmdGcast args
     | "geval" => cmdGeval args
     | "iface" => cmdIface args
     | "roll" => cmdRoll args
